@@ -75,3 +75,5 @@ func protect(f func()) (panicked bool, msg string) {
 	f()
 	return false, ""
 }
+
+func newRand(seed int64) *rand.Rand { return rand.New(rand.NewSource(seed)) }
